@@ -72,6 +72,13 @@ impl<'a, C: Context> Readable<'a, C> for Locator {
     let repr = repr::Locator::read_from(reader)?;
     Ok(repr.into())
   }
+
+  // Lets speedy reject a locator count that exceeds the remaining input before it
+  // allocates room for that many locators.
+  #[inline]
+  fn minimum_bytes_needed() -> usize {
+    <repr::Locator as Readable<'a, C>>::minimum_bytes_needed()
+  }
 }
 
 impl<C: Context> Writable<C> for Locator {
